@@ -57,8 +57,18 @@ fn return_only_as_documented(src: &str) -> bool
 	let text = |k: usize| src.get(toks[k].start..toks[k].end).unwrap_or("");
 	let mut depth = 0i32;
 	let mut seen_in_body = false;
+	let mut in_function = false;
 	for i in 0..toks.len()
 	{
+		if depth == 0
+		{
+			match text(i)
+			{
+				"fn" => in_function = true,
+				"struct" | "const" | "import" | "word8" | "word16" | "word32" | "word64" | "word128" => in_function = false,
+				_ => (),
+			}
+		}
 		match text(i)
 		{
 			"{" => depth += 1,
@@ -72,7 +82,7 @@ fn return_only_as_documented(src: &str) -> bool
 			}
 			"return" | "return!" =>
 			{
-				if text(i) == "return!" || depth != 1 || seen_in_body || i + 1 >= toks.len() || text(i + 1) != ":"
+				if text(i) == "return!" || depth != 1 || !in_function || seen_in_body || i + 1 >= toks.len() || text(i + 1) != ":"
 				{
 					return false;
 				}
